@@ -228,8 +228,8 @@ def main(fn, made):
 
 def run_lifetime(ctx, desc):
     """Every object that was given an id must still be the object behind that id when the table is used for the last time: the
-    program releases a recorded object between the two collections of a deferred snapshot. Oracle 1 (deterministic): the object is
-    still alive when the snapshot is delivered. Oracle 2 (allocator permitting): the captured value's entry is an entry of its type."""
+    program releases a recorded object between the two collections of a deferred snapshot, and creates the returned object right
+    after (CPython hands the freed block to it: same address). Oracle: the captured value's entry is an entry of its own type."""
     import weakref
     from deep.api.tracepoint.trigger import Trigger, LineLocation, FunctionLocation, Location, LocationAction
     ns, path = rig.load_program('c07life', LIFETIME_SRC)
@@ -271,9 +271,10 @@ def run_lifetime(ctx, desc):
             ctx.violation(f'C07/different-objects-share-entry/capture/{desc["kind"]}', f'{fn}: the function returned a Receipt; the snapshot says the captured value is variable '
                           f'{cap[0].result.vid}, the entry of a {var.type} recorded at entry (the id of a released object was reused)', desc)
             return
-    if seen.get('dead'):
-        ctx.violation(f'C07/recorded-object-released-while-id-in-use/{desc["kind"]}', f'{fn}: objects {seen["dead"]} have entries in the table but were released before the '
-                      f'snapshot was completed - the next object at that address is taken for them', desc)
+    # (An earlier version of this check also demanded that every recorded object still be alive when the snapshot is delivered. That is a
+    # means, not the property - and it contradicts C01: the application's objects must be released when the application lets go of them.
+    # What the property needs is above: the object behind an id is the object the id was given to. Whether the recorded objects were
+    # released meanwhile is an outcome.)
 
 
 ONDEMAND_SRC = '''
